@@ -499,10 +499,19 @@ def arr_attr(interp, arr: Arr, name):
     def m_all(interp):
         return np_all(interp, arr)
 
+    def m_nonzero(interp):
+        """Indices of the true elements, in increasing order (1-D boolean arrays)."""
+        if arr.ndim != 1 or arr.kind != "bool":
+            raise Unsupported("nonzero of a non 1-D boolean array")
+        f = make_filtered(cx, arr, arr)
+        f.u_src.generic = True  # every index term is a candidate: a true element implies count >= 1
+        g = f.g
+        return (Arr((f.count,), lambda k: g(V.to_z3(k)), "int"),)
+
     def m_sort(interp):
         raise Unsupported("in-place array sort")
 
-    table = dict(round=m_round, astype=m_astype, copy=m_copy, ravel=m_ravel, reshape=m_reshape, sum=m_sum, max=m_max, min=m_min, any=m_any, all=m_all)
+    table = dict(nonzero=m_nonzero, round=m_round, astype=m_astype, copy=m_copy, ravel=m_ravel, reshape=m_reshape, sum=m_sum, max=m_max, min=m_min, any=m_any, all=m_all)
     if name in table:
         return Builtin("ndarray." + name, table[name])
     raise Unsupported(f"ndarray attribute {name}")
